@@ -38,6 +38,8 @@ def run(ctx: Context) -> None:
     from . import c08 as _c08
     from .common import share_obligations as _share
     _share(ctx, _c08, {'R08.1', 'R08.2'}, 'R09.8')
+    from .common import adopt_foundations as _adopt
+    _adopt(ctx, 'R09.9', ['masks', 'topology'], floor=60)
     ctx.assume("NOT decided: that the saved file reopens as the same convention (needs the file)")
     ctx.assume("xarray/netCDF apply encoding dtype and _FillValue on write")
 
